@@ -247,6 +247,8 @@ class Runtime:
                 frame.locals = _ClassScope(self, interp, c)
                 val = interp.eval(c.info.attr_nodes[name], frame)
                 c.attrs[name] = val
+                # a value created in a class body is shared by every instance (and every client): module-level state
+                self.mark_global(val, "%s.%s" % (c.fullname, name))
                 return True, val
         return False, None
 
@@ -601,12 +603,17 @@ class Runtime:
             frame_hook = self.hooks.get("setattr")
             if frame_hook is not None:
                 frame_hook(interp, obj, name, value)
+            if name != "_raw_bytes" or obj.fields.get(name) not in (None, b""):
+                # (x690 objects cache their own serialisation in `_raw_bytes` on first use: an idempotent write)
+                self.note_write(obj, name)
             obj.fields[name] = value
             return
         if isinstance(obj, Closure):
             obj.attrs[name] = value
             return
         if isinstance(obj, PyClass):
+            if obj.info is not None:
+                self.global_writes.append("class attribute %s.%s" % (obj.fullname, name))
             obj.attrs[name] = value
             return
         interp.unsupported("attribute assignment on %r" % (obj,))
@@ -646,16 +653,21 @@ class Runtime:
                         self.mark_global(x, where, depth + 1)
                 f = f.parent
         elif isinstance(v, Obj) and depth < 3:
+            if id(v) not in self.global_ids:
+                self.global_ids[id(v)] = (where, v)
             for x in v.fields.values():
                 self.mark_global(x, where, depth + 1)
         elif isinstance(v, (tuple,)):
             for x in v:
                 self.mark_global(x, where, depth + 1)
 
-    def note_write(self, container):
+    def note_write(self, container, name=None):
         g = self.global_ids.get(id(container))
         if g is not None and g[1] is container:
             self.global_writes.append(g[0])
+            if not hasattr(self, "global_write_log"):
+                self.global_write_log = []
+            self.global_write_log.append((container, name))
 
     def dict_items(self, interp, d):
         if isinstance(d, PDict):
